@@ -226,7 +226,7 @@ pub fn segment(rng: &mut Rng, o: Opts, nz: bool, nc: bool) -> String {
             3 => "a:b".to_string(),
             4 => ":".to_string(),
             5 => "@".to_string(),
-            6 => "%2e".to_string(),
+            6 => rng.pick(&["%2e", "%2E%2e", ".%2E", "%2e."]).to_string(),
             7 => "...".to_string(),
             8 => "1:x".to_string(),
             9 | 10 | 11 => (rng.pick(&["a", "b", "c", "foo", "bar", "d;p", "g"])).to_string(),
